@@ -63,6 +63,15 @@ var c11Faults = []fault{
 	{Target: "SendV2Blocks", Name: "same-id-other-body", Pos: true, Regime: "below", Ban: "blocks-rejected-by-manager"},
 	{Target: "SendV2Blocks", Name: "invalid-block", Pos: true, Regime: "below", Ban: "blocks-rejected-by-manager", View: "invalid"},
 	{Target: "SendV2Blocks", Name: "invalid-block", Pos: true, Regime: "above", Ban: "invalid-block-in-validated-batch", View: "invalid"},
+	// one chunk request answered in several steps (the syncer keeps asking when a
+	// peer legally returns fewer blocks than requested): the first answer is a
+	// short prefix, the continuation is corrupted
+	{Target: "SendV2Blocks", Name: "multistep-honest-control", Pos: true},
+	{Target: "SendV2Blocks", Name: "multistep-overlong-remainder", Pos: true},
+	{Target: "SendV2Blocks", Name: "multistep-empty"},
+	{Target: "SendV2Blocks", Name: "multistep-longer-than-request"},
+	{Target: "SendV2Blocks", Name: "multistep-wrong-blocks"},
+	{Target: "SendV2Blocks", Name: "multistep-repeat"},
 	// ---- victim-issued SendCheckpoint (instant / parallel sync above the require height)
 	{Target: "SendCheckpoint", Name: "silence", Regime: "above"},
 	{Target: "SendCheckpoint", Name: "close", Regime: "above"},
@@ -127,6 +136,13 @@ type c11Case struct {
 	ByzTip        int             `json:"byzantine_view_tip_node"`
 	Special       string          `json:"special,omitempty"`
 	InitialTarget byte            `json:"initial_target_first_byte"`
+	// Long: the honest / Byzantine chain is more than 200 blocks ahead, so that
+	// several 100-block requests are in flight
+	Long bool `json:"several_chunks,omitempty"`
+	// Pair: the case is run twice, the Byzantine peer staying connected and
+	// hanging up right after its corrupted write; HangUp marks the second run
+	Pair   bool `json:"hit_and_run_pair,omitempty"`
+	HangUp bool `json:"hang_up_after_write,omitempty"`
 }
 
 const (
@@ -159,7 +175,11 @@ func runC11(r *mon.Run, replay string) {
 		// development filter (never set by ./check users): keeps matching rows only
 		var keep []c11Case
 		for _, c := range cases {
-			if strings.Contains(c.Target+"/"+c.Fault+"/"+c.Special, only) {
+			tag := c.Target + "/" + c.Fault + "/" + c.Special
+			if c.Pair {
+				tag += "/hit-and-run"
+			}
+			if strings.Contains(tag, only) {
 				keep = append(keep, c)
 			}
 		}
@@ -172,6 +192,9 @@ func runC11(r *mon.Run, replay string) {
 	r.Floor("bans_observed_total", 8)
 	r.Floor("manager_calls_audited:AddBlocks", 10)
 	r.Floor("manager_calls_audited:AddValidatedV2Blocks", 5)
+	r.Floor("multistep_continuation_faults_delivered", 20)
+	r.Floor("cases_with_several_100_block_requests", 8)
+	r.Floor("hit_and_run_pairs_judged", 10)
 }
 
 func genC11Cases(r *mon.Run) []c11Case {
@@ -207,6 +230,44 @@ func genC11Cases(r *mon.Run) []c11Case {
 						})
 					}
 				}
+			}
+		}
+		// multi-step answers with several 100-block requests in flight (the honest
+		// peer and the Byzantine peer are workers at the same time)
+		for _, f := range c11Faults {
+			if !strings.HasPrefix(f.Name, "multistep-") {
+				continue
+			}
+			for _, reg := range []string{"below", "above"} {
+				stream++
+				cases = append(cases, c11Case{Stream: stream, Target: f.Target, Fault: f.Name, Pos: []string{"first", "middle", "last"}[rng.IntN(3)], Regime: reg,
+					Mix: []string{"B+H", "2B+H"}[rng.IntN(2)], Phased: false, Long: true, HonestDials: rng.IntN(2) == 0})
+			}
+		}
+		// hit and run: every provable offence once with the peer staying and once
+		// hanging up right after the write
+		for _, f := range c11Faults {
+			if f.Ban == "" {
+				continue
+			}
+			positions := []string{""}
+			if f.Pos {
+				positions = []string{"first", "middle", "last"}
+			}
+			regimes := []string{"below", "above"}
+			if f.Regime == "below" || f.Regime == "above" {
+				regimes = []string{f.Regime}
+			}
+			for _, pos := range positions {
+				for _, reg := range regimes {
+					stream++
+					cases = append(cases, c11Case{Stream: stream, Target: f.Target, Fault: f.Name, Pos: pos, Regime: reg, Pair: true})
+				}
+			}
+			if f.View == "invalid" {
+				// the invalid block closes a full 100-block request
+				stream++
+				cases = append(cases, c11Case{Stream: stream, Target: f.Target, Fault: f.Name, Pos: "last", Regime: f.Regime, Pair: true, Long: true})
 			}
 		}
 		// multi-chunk scenarios around the 100-block request split
@@ -273,6 +334,11 @@ type scene struct {
 	action func(b *p2plab.Byz) error
 	// delivered reports whether the fault reached the victim
 	delivered func(b *p2plab.Byz) bool
+	// watch: block ids whose reads the victim's manager proxy records
+	watch []types.BlockID
+	// processed reports (hit-and-run runs) whether the victim demonstrably
+	// received the corrupted message and reached its verdict on it
+	processed func(v *p2plab.Node, b *p2plab.Byz, since int64) bool
 	// override: states the attacker hands out for specific checkpoint blocks
 	override map[types.BlockID]consensus.State
 	skip     string
@@ -350,6 +416,9 @@ func buildScene(r *mon.Run, cc *c11Case) *scene {
 		hf = sc.vTip // the swapped block must lie on the part the victim downloads
 	}
 	hLen := 4 + rng.IntN(8)
+	if cc.Long {
+		hLen = 205 + rng.IntN(60)
+	}
 	sc.hTip = p2plab.Heavier(t, p2plab.GrowMixed(t, hf, hLen, 2, prof), 1, prof, sc.vTip)
 	sc.bTip = sc.hTip
 	sc.delivered = func(b *p2plab.Byz) bool { return b.Counter("faulted:"+f.Target) > 0 }
@@ -482,7 +551,11 @@ func buildFault(sc *scene, prof chainlab.Profile) {
 		// header-only blocks until the chain outweighs the victim's
 		n := 3 + rng.IntN(5)
 		k := posIndex(sc.cc.Pos, n)
-		x := p2plab.Grow(t, sc.vTip, k, prof)
+		if sc.cc.Long {
+			// the invalid block closes the first 100-block request; a second request follows
+			n, k = 104+rng.IntN(8), 99
+		}
+		x := p2plab.GrowMixed(t, sc.vTip, k, 3, prof)
 		bad := p2plab.InvalidChild(t, x, rng)
 		if bad == nil {
 			sc.skip = "no body-invalid block found"
@@ -501,7 +574,11 @@ func buildFault(sc *scene, prof chainlab.Profile) {
 		}
 		sc.bTip = y
 		sc.delivered = func(b *p2plab.Byz) bool { return b.Counter("served-invalid-block") > 0 }
+		sc.processed = chunkVerdict
 		return
+	}
+	if f.Target == "SendV2Blocks" && f.Name == "same-id-other-body" {
+		sc.processed = chunkVerdict
 	}
 	switch f.Target {
 	case "SendTransactions", "RelayV2BlockOutline", "RelayV2Header", "RelayV2TransactionSet":
@@ -523,12 +600,19 @@ func buildRelayFault(sc *scene, prof chainlab.Profile) {
 		return
 	}
 	call := func(b *p2plab.Byz, o gateway.Object) error {
-		err := b.Call(o, 5*time.Second)
+		var err error
+		if sc.cc.HangUp {
+			err = b.CallHangUp(o) // hit and run: close the connection once the request is on the wire
+		} else {
+			err = b.Call(o, 5*time.Second)
+		}
 		if err == nil || err != p2plab.ErrNotConnected {
 			b.Count("faulted:"+f.Target, 1)
 		}
 		return err
 	}
+	tipID := sc.vTip.ID
+	sc.watch = append(sc.watch, tipID)
 	sc.delivered = func(b *p2plab.Byz) bool { return b.Counter("faulted:"+f.Target) > 0 }
 	switch f.Target + "/" + f.Name {
 	case "RelayV2Header/insufficient-work":
@@ -538,6 +622,12 @@ func buildRelayFault(sc *scene, prof chainlab.Profile) {
 			return
 		}
 		sc.action = func(b *p2plab.Byz) error { return call(b, &gateway.RPCRelayV2Header{Header: bh}) }
+		badID := bh.ID()
+		sc.watch = append(sc.watch, badID)
+		// the handler looked the bad header's id up: the whole message was read
+		sc.processed = func(v *p2plab.Node, b *p2plab.Byz, since int64) bool {
+			return v.ACM.HandlerReads("State", badID, since) > 0
+		}
 	case "RelayV2Header/unknown-parent":
 		bh := sc.hTip.Block.Header()
 		sc.action = func(b *p2plab.Byz) error { return call(b, &gateway.RPCRelayV2Header{Header: bh}) }
@@ -567,6 +657,11 @@ func buildRelayFault(sc *scene, prof chainlab.Profile) {
 			return
 		}
 		sc.action = func(b *p2plab.Byz) error { return call(b, &gateway.RPCRelayV2BlockOutline{Block: o}) }
+		// only the Byzantine peer relays to the victim in these runs: a handler
+		// looking up the tip's state after the write is handling this outline
+		sc.processed = func(v *p2plab.Node, b *p2plab.Byz, since int64) bool {
+			return v.ACM.HandlerReads("State", tipID, since) > 0
+		}
 	case "RelayV2BlockOutline/invalid-block":
 		var bad *chainlab.Node
 		for try := 0; try < 10 && bad == nil; try++ {
@@ -585,6 +680,15 @@ func buildRelayFault(sc *scene, prof chainlab.Profile) {
 			return
 		}
 		sc.action = func(b *p2plab.Byz) error { return call(b, &gateway.RPCRelayV2BlockOutline{Block: o}) }
+		badIdx := bad.Idx
+		sc.processed = func(v *p2plab.Node, b *p2plab.Byz, since int64) bool {
+			for _, c := range v.Mon.Calls() {
+				if c.Kind == "AddBlocks" && c.Err != "" && c.First == badIdx {
+					return true // the manager rejected the relayed block
+				}
+			}
+			return false
+		}
 	case "RelayV2BlockOutline/unknown-parent":
 		if sc.hTip.Block.V2 == nil {
 			sc.skip = "honest tip is not v2"
@@ -608,6 +712,9 @@ func buildRelayFault(sc *scene, prof chainlab.Profile) {
 	case "RelayV2TransactionSet/empty":
 		sc.action = func(b *p2plab.Byz) error {
 			return call(b, &gateway.RPCRelayV2TransactionSet{Index: sc.vTip.L.State.Index})
+		}
+		sc.processed = func(v *p2plab.Node, b *p2plab.Byz, since int64) bool {
+			return v.ACM.HandlerReads("Block", tipID, since) > 0
 		}
 	case "RelayV2TransactionSet/unknown-basis":
 		txns := child.Block.V2Transactions()
@@ -677,11 +784,75 @@ func buildRelayFault(sc *scene, prof chainlab.Profile) {
 			b.Count("outline-with-missing-relayed", 1)
 			return err
 		}
+		// the outline was handled (pool lookup), the answer was written, and no
+		// "couldn't retrieve" error was logged well after the request timeout:
+		// the victim read the answer and judged it
+		sc.processed = func(v *p2plab.Node, b *p2plab.Byz, since int64) bool {
+			if v.ACM.HandlerReads("TransactionsForPartialBlock", types.BlockID{}, since) == 0 || b.Counter("answered:SendTransactions") == 0 {
+				return false
+			}
+			if time.Now().UnixNano()-b.LastFault.Load() < int64(4*time.Second) {
+				return false
+			}
+			for _, l := range v.LogTail() {
+				if strings.Contains(l, "couldn't retrieve missing transactions") {
+					return false
+				}
+			}
+			return true
+		}
 	}
+}
+
+// chunkVerdict: the victim judged a downloaded batch (in hit-and-run runs the
+// Byzantine peer is the only peer, so every batch is its own): the manager
+// rejected it, or the pre-validating worker failed with something that is not
+// a transport or framing error.
+func chunkVerdict(v *p2plab.Node, b *p2plab.Byz, since int64) bool {
+	for _, c := range v.Mon.Calls() {
+		if (c.Kind == "AddBlocks" || c.Kind == "AddValidatedV2Blocks") && c.Err != "" && c.N > 0 {
+			return true
+		}
+	}
+	for _, l := range v.LogTail() {
+		if !strings.Contains(l, "failed to fetch blocks") {
+			continue
+		}
+		transport := false
+		for _, w := range []string{"couldn't", "EOF", "closed", "timeout", "canceled", "deadline", "wrong number of blocks", "wrong blocks", "do not match", "reset"} {
+			if strings.Contains(l, w) {
+				transport = true
+			}
+		}
+		if !transport {
+			return true
+		}
+	}
+	return false
 }
 
 // installHooks scripts the Byzantine peer for the passive (victim-issued) faults.
 func installHooks(sc *scene, b *p2plab.Byz) {
+	defer func() {
+		if !sc.cc.HangUp {
+			return
+		}
+		// hit and run: hang up right after the corrupted answer is on the wire
+		if h := b.OnSendV2Blocks; h != nil {
+			b.OnSendV2Blocks = func(b *p2plab.Byz, r *gateway.RPCSendV2Blocks) p2plab.Reply {
+				rep := h(b, r)
+				rep.HangUp = rep.Faulted
+				return rep
+			}
+		}
+		if h := b.OnSendTransactions; h != nil {
+			b.OnSendTransactions = func(b *p2plab.Byz, r *gateway.RPCSendTransactions) p2plab.Reply {
+				rep := h(b, r)
+				rep.HangUp = rep.Faulted
+				return rep
+			}
+		}
+	}()
 	f, t := sc.f, sc.t
 	pos := sc.cc.Pos
 	garbage := func() gateway.Object {
@@ -770,15 +941,27 @@ func installHooks(sc *scene, b *p2plab.Byz) {
 			return p2plab.Reply{Obj: r}
 		}
 	case "SendV2Blocks":
+		ms := &multiStep{cont: map[types.BlockID]*msChunk{}}
 		b.OnSendV2Blocks = func(b *p2plab.Byz, r *gateway.RPCSendV2Blocks) p2plab.Reply {
 			b.HonestBlocks(r)
 			if f.View == "invalid" {
+				served := false
 				for _, blk := range r.Blocks {
 					if nd := t.ByID[blk.ID()]; nd != nil && nd.OrphanValid && !nd.Valid && nd.Corruption != "" {
 						b.Count("served-invalid-block", 1)
+						served = true
 					}
 				}
-				return p2plab.Reply{Obj: r}
+				return p2plab.Reply{Obj: r, Faulted: served}
+			}
+			if strings.HasPrefix(f.Name, "multistep-") {
+				rep := ms.answer(b, r, f.Name, pos)
+				if rep.Faulted {
+					// logged before the write so that a crash of the victim's worker
+					// goroutine (no recover there) can be attributed to this row
+					fmt.Printf("note: C11 stream=%d delivering %s continuation (%d blocks for %d outstanding) regime=%s long=%v\n", sc.cc.Stream, f.Name, len(r.Blocks), r.Max, sc.cc.Regime, sc.cc.Long)
+				}
+				return rep
 			}
 			n := len(r.Blocks)
 			if n == 0 {
@@ -985,6 +1168,14 @@ func installHooks(sc *scene, b *p2plab.Byz) {
 var secondFaults = []string{"SendHeaders/close", "SendHeaders/garbage", "SendHeaders/empty", "SendHeaders/broken-linkage", "SendV2Blocks/silence", "SendV2Blocks/fewer", "SendV2Blocks/zero", "SendV2Blocks/reordered", "SendV2Blocks/sibling-block", "SendCheckpoint/close", "SendCheckpoint/state-tweaked", "SendCheckpoint/wrong-id"}
 
 func runByzCase(r *mon.Run, cc c11Case) {
+	if cc.Pair {
+		runHangUpPair(r, cc)
+		return
+	}
+	runByzCaseResult(r, cc)
+}
+
+func runByzCaseResult(r *mon.Run, cc c11Case) (res byzResult) {
 	switch cc.Special {
 	case "poisoned-next-block":
 		runPoisonNext(r, cc)
@@ -1003,11 +1194,18 @@ func runByzCase(r *mon.Run, cc c11Case) {
 	slot := p2plab.NextSlot()
 	withH := cc.Mix != "B"
 	mk := func(name string, i int, tip *chainlab.Node) (*p2plab.Node, error) {
-		return p2plab.NewNode(p2plab.NodeOpts{
+		o := p2plab.NodeOpts{
 			Name: name, IP: p2plab.HonestIP(slot, i), Tree: t, Tip: tip,
 			SyncInterval: time.Duration(50+rng.IntN(50)) * time.Millisecond, DiscoveryInterval: time.Duration(50+rng.IntN(50)) * time.Millisecond,
 			RPCTimeout: 2 * time.Second,
-		})
+		}
+		if cc.Pair && name == "victim" {
+			// both twins: reads of the watched ids are recorded, the log tail is kept,
+			// and handler-side manager calls are slowed down a little so that a
+			// hang-up lands between "message read" and "verdict"
+			o.KeepLog, o.WatchIDs, o.HandlerDelay = true, append([]types.BlockID{sc.vTip.ID}, sc.watch...), 40*time.Millisecond
+		}
+		return p2plab.NewNode(o)
 	}
 	v, err := mk("victim", 0, sc.vTip)
 	if err != nil {
@@ -1117,14 +1315,15 @@ func runByzCase(r *mon.Run, cc c11Case) {
 		connectByz(b1, cc.VictimDials)
 		doAction(b1)
 		limit := 12 * time.Second
-		if f.Target == "control" {
+		honestRow := f.Target == "control" || f.Name == "multistep-honest-control"
+		if honestRow {
 			limit = 30 * time.Second
 		}
 		t0 := time.Now()
 		for time.Since(t0) < limit {
 			if sc.delivered(b1) {
 				delivered = true
-				if f.Target == "control" {
+				if honestRow {
 					if v.CM.Tip().ID == sc.bTip.ID {
 						break
 					}
@@ -1132,7 +1331,7 @@ func runByzCase(r *mon.Run, cc c11Case) {
 					break
 				}
 			}
-			if f.Target == "control" && v.CM.Tip().ID == sc.bTip.ID {
+			if honestRow && v.CM.Tip().ID == sc.bTip.ID {
 				delivered = true
 				break
 			}
@@ -1183,6 +1382,7 @@ func runByzCase(r *mon.Run, cc c11Case) {
 		}
 	}
 
+	actionStart := time.Now().UnixNano()
 	if cc.Phased {
 		phase1()
 		honestPhase()
@@ -1201,6 +1401,17 @@ func runByzCase(r *mon.Run, cc c11Case) {
 	time.Sleep(150 * time.Millisecond)
 	monitorStop.Store(true)
 	wg.Wait()
+	processed := false
+	if cc.HangUp && sc.processed != nil {
+		processed = sc.processed(v, b1, actionStart)
+		if !processed && len(v.PS.BansFor(b1.IP)) == 0 && delivered {
+			// generous watchdog for the verdict to become observable
+			for i := 0; i < 60 && !processed && len(v.PS.BansFor(b1.IP)) == 0; i++ {
+				time.Sleep(100 * time.Millisecond)
+				processed = sc.processed(v, b1, actionStart)
+			}
+		}
+	}
 
 	honestBanned := false
 	var honestBans []p2plab.BanRecord
@@ -1245,7 +1456,7 @@ func runByzCase(r *mon.Run, cc c11Case) {
 	}
 	if delivered {
 		r.Count("faults_delivered", 1)
-		r.Distinct(fmt.Sprintf("%s/%s/%s", key, cc.Regime, cc.Mix))
+		r.Distinct(fmt.Sprintf("%s/%s/%s/long=%v/hangup=%v", key, cc.Regime, cc.Mix, cc.Long, cc.HangUp))
 		r.SetAdd("fault_rows_delivered", key+"/"+cc.Regime)
 	} else {
 		r.Count("faults_not_delivered:"+key, 1)
@@ -1253,7 +1464,7 @@ func runByzCase(r *mon.Run, cc c11Case) {
 	r.SetAdd("peer_mixes", cc.Mix)
 	for _, b := range byz {
 		for k, n := range b.Counters() {
-			if strings.HasPrefix(k, "answered:") || strings.HasPrefix(k, "faulted:") || strings.HasPrefix(k, "silence:") || strings.HasPrefix(k, "recv:") {
+			if strings.HasPrefix(k, "answered:") || strings.HasPrefix(k, "faulted:") || strings.HasPrefix(k, "silence:") || strings.HasPrefix(k, "recv:") || strings.HasPrefix(k, "multistep:") {
 				r.Count("byzantine_"+k, n)
 			}
 		}
@@ -1265,6 +1476,13 @@ func runByzCase(r *mon.Run, cc c11Case) {
 	for _, a := range v.PS.AddedPeers() {
 		if validAddr(a) != nil {
 			r.Count("invalid_addresses_added_to_peer_store", 1)
+		}
+	}
+	if f.Name == "multistep-honest-control" && !withH && cc.Phased {
+		if v.Mon.Tip() == sc.bTip {
+			r.Count("victims_synced_from_a_peer_answering_in_several_steps", 1)
+		} else {
+			r.Violation("stall:multistep-honest-answers:"+cc.Regime, "the only peer holds the heaviest valid chain and answers every block request honestly in several short steps, but the victim did not reach its tip within 30 s", cc, detail())
 		}
 	}
 	if f.Target == "control" {
@@ -1312,7 +1530,17 @@ func runByzCase(r *mon.Run, cc c11Case) {
 			r.Violation(sig, "with an honest peer holding the heaviest valid chain connected, the victim did not reach that chain within the bound", cc, detail())
 		}
 	}
-	if expectBan && delivered {
+	if strings.HasPrefix(f.Name, "multistep-") && delivered {
+		r.Count("multistep_continuation_faults_delivered", 1)
+		r.SetAdd("multistep_rows_delivered", key+"/"+cc.Regime+fmt.Sprint("/long=", cc.Long))
+	}
+	if cc.Long {
+		r.Count("cases_with_several_100_block_requests", 1)
+	}
+	if cc.HangUp {
+		r.Count("hit_and_run_hang_ups_performed", b1.Counter("hangups"))
+	}
+	if expectBan && delivered && !cc.HangUp {
 		if len(byzBans) > 0 {
 			r.Count("expected_bans_observed:"+key, 1)
 		} else {
@@ -1333,6 +1561,12 @@ func runByzCase(r *mon.Run, cc c11Case) {
 	if cc.Stream%29 == 0 {
 		r.Sample(map[string]any{"case": cc, "delivered": delivered, "reached_honest_tip": reached, "progress_ms": progressMS, "byzantine_counters": b1.Counters(), "bans": v.PS.Bans()})
 	}
+	res = byzResult{ran: true, delivered: delivered, banned: len(byzBans) > 0, processed: processed}
+	if cc.HangUp {
+		res.detail = detail()
+		res.detail["victim_log_tail"] = v.LogTail()
+	}
+	return res
 }
 
 func sortStrings(s []string) { sort.Strings(s) }
@@ -1351,4 +1585,137 @@ func validAddr(addr string) error {
 		return errors.New("bad port")
 	}
 	return nil
+}
+
+// ---- one chunk request answered in several SendV2Blocks answers ------------
+
+type msChunk struct {
+	list      []types.Block // the honest answer to the original request
+	got       int           // blocks handed out so far
+	prevStart int           // start of the previous batch
+}
+
+type multiStep struct {
+	mu   sync.Mutex
+	cont map[types.BlockID]*msChunk // keyed by the id the continuation request will name
+}
+
+func (m *multiStep) extra(b *p2plab.Byz, after types.Block, n int) []types.Block {
+	q := &gateway.RPCSendV2Blocks{History: []types.BlockID{after.ID()}, Max: uint64(n)}
+	b.HonestBlocks(q)
+	out := q.Blocks
+	if len(out) > 0 && out[0].ParentID != after.ID() {
+		out = nil // the view ends here
+	}
+	for len(out) < n {
+		out = append(out, after) // pad with copies
+	}
+	return out[:n]
+}
+
+func (m *multiStep) answer(b *p2plab.Byz, r *gateway.RPCSendV2Blocks, variant, pos string) p2plab.Reply {
+	m.mu.Lock()
+	defer m.mu.Unlock()
+	var hid types.BlockID
+	if len(r.History) > 0 {
+		hid = r.History[0]
+	}
+	st := m.cont[hid]
+	if st == nil {
+		// first request for a chunk: a legally short prefix
+		b.HonestBlocks(r)
+		l := r.Blocks
+		if len(l) < 3 {
+			return p2plab.Reply{Obj: r}
+		}
+		k := map[string]int{"first": 1, "last": len(l) - 1}[pos]
+		if k == 0 {
+			k = len(l) / 2
+		}
+		m.cont[l[k-1].ID()] = &msChunk{list: l, got: k}
+		r.Blocks = l[:k]
+		r.Remaining += uint64(len(l) - k)
+		b.Count("multistep:short-first-answers", 1)
+		return p2plab.Reply{Obj: r}
+	}
+	rem := st.list[st.got:]
+	last := st.list[len(st.list)-1]
+	b.Count("multistep:continuations:"+variant, 1)
+	switch variant {
+	case "multistep-honest-control":
+		step := max(1, len(rem)/2)
+		r.Blocks = rem[:step]
+		r.Remaining = uint64(len(rem) - step)
+		if step < len(rem) {
+			m.cont[rem[step-1].ID()] = &msChunk{list: st.list, got: st.got + step, prevStart: st.got}
+		}
+	case "multistep-overlong-remainder":
+		// the genuine remainder plus extra blocks: more than outstanding, not more
+		// than the original request
+		r.Blocks = append(append([]types.Block(nil), rem...), m.extra(b, last, st.got)...)
+	case "multistep-empty":
+		r.Blocks = nil
+	case "multistep-longer-than-request":
+		r.Blocks = append(append([]types.Block(nil), rem...), m.extra(b, last, st.got+2)...)
+	case "multistep-wrong-blocks":
+		// right length, but the chunk's first blocks again: does not link to the previous batch
+		r.Blocks = append([]types.Block(nil), st.list[:len(rem)]...)
+	case "multistep-repeat":
+		prev := st.list[st.prevStart:st.got]
+		r.Blocks = append([]types.Block(nil), prev[:min(len(prev), len(rem))]...)
+	}
+	return p2plab.Reply{Obj: r, Faulted: true}
+}
+
+// ---- hit and run --------------------------------------------------------------
+
+type byzResult struct {
+	ran       bool
+	delivered bool
+	banned    bool
+	processed bool
+	detail    map[string]any
+}
+
+// runHangUpPair runs one provable offence twice on identical material: the
+// Byzantine peer stays connected, then hangs up as soon as its corrupted write
+// is on the wire. Only if the staying twin was reported to the peer store, and
+// the victim demonstrably read and judged the message of the hang-up run, a ban
+// is demanded for the hang-up run too.
+func runHangUpPair(r *mon.Run, cc c11Case) {
+	cc.Mix, cc.Phased, cc.Pair, cc.HangUp = "B", true, true, false
+	key := cc.Target + "/" + cc.Fault
+	if cc.Pos != "" {
+		key += "@" + cc.Pos
+	}
+	if cc.Long {
+		key += "@100-block-request"
+	}
+	stay := runByzCaseResult(r, cc)
+	if !stay.ran {
+		return
+	}
+	if !stay.delivered || !stay.banned {
+		r.Count("hit_and_run_pairs_skipped:staying_twin_not_banned", 1)
+		return
+	}
+	cc.HangUp = true
+	hu := runByzCaseResult(r, cc)
+	switch {
+	case !hu.ran:
+	case !hu.delivered:
+		r.Count("hit_and_run_unjudged:not-delivered:"+key, 1)
+	case hu.banned:
+		r.Count("hit_and_run_pairs_judged", 1)
+		r.Count("hit_and_run_bans_observed:"+key, 1)
+		r.SetAdd("hit_and_run_rows_judged", key+"/"+cc.Regime)
+	case !hu.processed:
+		// the victim may never have read the message: no verdict
+		r.Count("hit_and_run_unjudged:receipt-not-demonstrated:"+key, 1)
+	default:
+		r.Count("hit_and_run_pairs_judged", 1)
+		r.SetAdd("hit_and_run_rows_judged", key+"/"+cc.Regime)
+		fmt.Printf("note: C11 stream=%d no-ban-after-hang-up %s %s\n", cc.Stream, key, cc.Regime)
+		r.Violation("no-ban-after-hang-up:"+key+":"+cc.Regime, "a peer that delivered provably bad data ("+cc.Fault+") and closed its connection right after the write was not reported to the peer store, although the same data from a peer that stayed connected was, and the victim demonstrably read and judged the message", cc, hu.detail)
+	}
 }
